@@ -3,7 +3,7 @@ CONSTANTS
   Valid = {1, 2}
   Invalid <- DefInvalid
   Subs = {"s1"}
-  WrongKinds <- SeqWrong
+  WrongKinds <- SeqWrong1
   Dev_ValidateByBytesOnly = FALSE
   MaxWrites = 9
   Mode = "seq"
